@@ -1,14 +1,386 @@
+// larkcheck decides structural necessary conditions of the larking properties
+// C01..C20 from /repo's source (AST, types, SSA, CFG, call graph). It never
+// runs larking code. See /verif/DESIGN.md.
 package main
 
 import (
-	_ "golang.org/x/tools/go/callgraph/cha"
-	_ "golang.org/x/tools/go/callgraph/vta"
-	_ "golang.org/x/tools/go/cfg"
-	_ "golang.org/x/tools/go/packages"
-	_ "golang.org/x/tools/go/ssa"
-	_ "golang.org/x/tools/go/ssa/ssautil"
-	_ "golang.org/x/tools/go/types/typeutil"
-	_ "golang.org/x/tools/go/ast/astutil"
+	"flag"
+	"fmt"
+	"os"
+	"path/filepath"
+	"runtime/debug"
+	"sort"
+	"strconv"
+	"strings"
+	"time"
 )
 
-func main() {}
+var (
+	flagProperty = flag.String("property", "", "property id (C01..C20)")
+	flagTier     = flag.String("tier", "", "quick | thorough (default: $VERIF_TIER or quick)")
+	flagRepo     = flag.String("repo", "/repo", "repository root")
+	flagVerif    = flag.String("verif", "/verif", "verification root (evidence, replays, known findings)")
+	flagReplay   = flag.String("replay", "", "re-diagnose the obligation stored in a replay file")
+	flagControl  = flag.String("control", "", "run a single overlay control by id (internal)")
+	flagList     = flag.Bool("list", false, "list properties, rules and controls")
+	flagVerbose  = flag.Bool("v", false, "print every obligation")
+	flagNoCtl    = flag.Bool("nocontrols", false, "skip positive controls")
+)
+
+func main() {
+	flag.Parse()
+	if *flagList {
+		listAll()
+		return
+	}
+	if *flagControl != "" {
+		os.Exit(runControlCLI(*flagControl))
+	}
+	if *flagReplay != "" {
+		os.Exit(runReplay(*flagReplay))
+	}
+	if *flagProperty == "" {
+		fmt.Fprintln(os.Stderr, "usage: larkcheck -property Cxx [-tier quick|thorough]")
+		os.Exit(2)
+	}
+	tier := *flagTier
+	if tier == "" {
+		tier = os.Getenv("VERIF_TIER")
+	}
+	if tier != "thorough" {
+		tier = "quick"
+	}
+	os.Exit(runProperty(*flagProperty, tier))
+}
+
+func seed() int {
+	s, _ := strconv.Atoi(os.Getenv("VERIF_SEED"))
+	return s
+}
+
+// runRules evaluates the given rules on a loaded program, converting checker
+// panics into undecided obligations (a rule that crashes has decided nothing).
+func runRules(p *Program, rules []string) *Run {
+	r := &Run{P: p}
+	for _, name := range rules {
+		rule := ruleTable[name]
+		if rule == nil {
+			r.rule = name
+			r.undecided("rule:"+name, 0, "rule not implemented")
+			continue
+		}
+		r.rule = name
+		before := len(r.Obs)
+		func() {
+			defer func() {
+				if e := recover(); e != nil {
+					r.undecided("rule:"+name, 0, "checker panic while evaluating rule: %v\n%s", e, trimStack(debug.Stack()))
+				}
+			}()
+			rule.Run(r)
+		}()
+		n := 0
+		for _, o := range r.Obs[before:] {
+			if o.Status != stInfo {
+				n++
+			}
+		}
+		if n < rule.Floor {
+			r.undecided("rule:"+name+"/instance-floor", 0,
+				"rule matched %d instances, fewer than the %d confirmed by hand on the reviewed tree: the rule has lost its subject", n, rule.Floor)
+		}
+	}
+	sortObs(r.Obs)
+	return r
+}
+
+func trimStack(b []byte) string {
+	lines := strings.Split(string(b), "\n")
+	if len(lines) > 24 {
+		lines = lines[:24]
+	}
+	return strings.Join(lines, "\n")
+}
+
+func runProperty(id, tier string) int {
+	t0 := time.Now()
+	prop := propertyTable[id]
+	if prop == nil {
+		fmt.Fprintf(os.Stderr, "unknown property %q\n", id)
+		return 2
+	}
+	evPath := filepath.Join(*flagVerif, "evidence", id+".json")
+	replayDir := filepath.Join(*flagVerif, "replays")
+
+	fail := func(what string, err error) int {
+		// The tree could not be analysed: nothing is decided, which is a failure.
+		rp := filepath.Join(replayDir, id+"-LOAD-0.json")
+		_ = writeJSON(rp, map[string]interface{}{"property": id, "rule": "LOAD", "error": fmt.Sprint(err), "what": what})
+		ev := Evidence{PropertyID: id, Tier: tier, Seed: seed(), Level: "other",
+			Coverage: map[string]interface{}{
+				"explanation": "the tree could not be loaded/type-checked, so no rule was evaluated: " + fmt.Sprint(err),
+				"obligations": 0, "discharged": 0,
+			},
+			WallS: time.Since(t0).Seconds(), Violations: 1}
+		_ = writeJSON(evPath, ev)
+		fmt.Printf("ERROR %s: %v\n", what, err)
+		fmt.Printf("VIOLATION property=%s replay=%s\n", id, rp)
+		return 1
+	}
+
+	known, err := loadKnown(filepath.Join(*flagVerif, "known_findings.json"))
+	if err != nil {
+		return fail("known_findings.json", err)
+	}
+
+	prog, err := Load(*flagRepo, defaultConfig, nil)
+	if err != nil {
+		return fail("load", err)
+	}
+	run := runRules(prog, prop.Rules)
+
+	configs := []string{defaultConfig.String()}
+	var extraObs []Obligation
+	if tier == "thorough" {
+		for _, bc := range thoroughConfigs {
+			p2, err := Load(*flagRepo, bc, nil)
+			if err != nil {
+				extraObs = append(extraObs, Obligation{Rule: "LOAD", Construct: "config:" + bc.String(), Status: stUndecided, Pos: "-", Detail: err.Error()})
+				continue
+			}
+			r2 := runRules(p2, prop.Rules)
+			configs = append(configs, bc.String())
+			// only report what differs from the default configuration
+			base := map[string]string{}
+			for _, o := range run.Obs {
+				base[o.Rule+"\x00"+o.Construct] = o.Status
+			}
+			for _, o := range r2.Obs {
+				if o.Status == stInfo {
+					continue
+				}
+				if bs, ok := base[o.Rule+"\x00"+o.Construct]; !ok || bs != o.Status {
+					if widthSensitive[o.Rule] && bc.GOARCH != "amd64" {
+						o.Status = stInfo
+						o.Detail = "[" + bc.String() + ", informational: width-sensitive rule gates on amd64] " + o.Detail
+					} else {
+						o.Detail = "[" + bc.String() + "] " + o.Detail
+					}
+					o.Construct = o.Construct + "@" + bc.String()
+					extraObs = append(extraObs, o)
+				}
+			}
+			p2 = nil
+		}
+	}
+	obs := append(run.Obs, extraObs...)
+
+	// ---- classify ----
+	var nObl, nOK, nKnown, nViol int
+	ruleCounts := map[string]map[string]int{}
+	var violations []Obligation
+	var knownHits []string
+	for _, o := range obs {
+		if ruleCounts[o.Rule] == nil {
+			ruleCounts[o.Rule] = map[string]int{}
+		}
+		ruleCounts[o.Rule][o.Status]++
+		if o.Status == stInfo {
+			continue
+		}
+		nObl++
+		switch o.Status {
+		case stOK:
+			nOK++
+		default:
+			if kf := known.match(id, o); kf != nil {
+				nKnown++
+				knownHits = append(knownHits, fmt.Sprintf("KNOWN-FINDING: property=%s %s %s: %s", id, o.Rule, o.Construct, kf.What))
+			} else {
+				nViol++
+				violations = append(violations, o)
+			}
+		}
+	}
+
+	// ---- positive controls ----
+	var ctlResults []map[string]interface{}
+	if !*flagNoCtl {
+		ctlResults = runControls(id, tier, prop.Rules)
+	}
+
+	// ---- output ----
+	if *flagVerbose {
+		for _, o := range obs {
+			fmt.Printf("%-10s %-22s %-60s %s  %s\n", o.Status, o.Rule, o.Construct, o.Pos, firstLine(o.Detail))
+		}
+	}
+	for _, k := range knownHits {
+		fmt.Println(k)
+	}
+	// clear stale replays of this property
+	if old, _ := filepath.Glob(filepath.Join(replayDir, id+"-*.json")); len(old) > 0 {
+		for _, f := range old {
+			_ = os.Remove(f)
+		}
+	}
+	for i, o := range violations {
+		rp := filepath.Join(replayDir, fmt.Sprintf("%s-%s-%d.json", id, sanitize(o.Rule), i))
+		_ = writeJSON(rp, map[string]interface{}{
+			"property": id, "rule": o.Rule, "construct": o.Construct, "pos": o.Pos, "status": o.Status, "detail": o.Detail,
+			"replay_cmd": fmt.Sprintf("/verif/bin/larkcheck -replay %s", rp),
+		})
+		fmt.Printf("%s %s [%s] %s: %s\n", strings.ToUpper(o.Status), o.Pos, o.Rule, o.Construct, o.Detail)
+		fmt.Printf("VIOLATION property=%s replay=%s\n", id, rp)
+	}
+
+	// ---- evidence ----
+	samples := sampleObs(obs, 14)
+	ruleDocs := map[string]string{}
+	for _, rn := range prop.Rules {
+		if rl := ruleTable[rn]; rl != nil {
+			ruleDocs[rn] = rl.Doc
+		}
+	}
+	cov := map[string]interface{}{
+		"explanation": prop.Decides + " NOT DECIDED: " + prop.NotDecided,
+		"obligations": nObl,
+		"discharged":  nOK,
+		"known":       nKnown,
+		"violated":    nViol,
+		"exhaustive":  true,
+		"rule": "every rule instance (obligation) found in the type-checked SSA program of ./larking and ./health is enumerated; " +
+			"an obligation is non-trivial when it is attached to a concrete construct (function, call site, field, table entry) of /repo",
+		"evaluations":         nObl,
+		"distinct_nontrivial": distinctConstructs(obs),
+		"samples":             samples,
+		"rules":               ruleDocs,
+		"instance_counts":     ruleCounts,
+		"functions_analysed":  len(prog.ModuleFuncs()),
+		"program_functions":   prog.nAllFuncs,
+		"configs":             configs,
+		"controls":            ctlResults,
+		"checker_cmd":         fmt.Sprintf("/verif/bin/larkcheck -property %s -tier %s", id, tier),
+		"trusted_base":        []string{"go/types", "go/ssa", "golang.org/x/tools v0.29.0 (vta/cha call graph)", "contract tables for library calls (DESIGN.md section 8)", "larkcheck itself"},
+	}
+	if prog.cg != nil {
+		cov["callgraph_nodes"] = len(prog.cg.Nodes)
+	}
+	ev := Evidence{PropertyID: id, Tier: tier, Seed: seed(), Level: "other", Coverage: cov,
+		Assumptions: prop.Assumptions, WallS: time.Since(t0).Seconds(), Violations: nViol}
+	if err := writeJSON(evPath, ev); err != nil {
+		fmt.Printf("ERROR writing evidence: %v\n", err)
+		return 2
+	}
+	fmt.Printf("%s %s: %d obligations, %d discharged, %d known, %d violated; rules=%d controls=%d wall=%.1fs\n",
+		id, tier, nObl, nOK, nKnown, nViol, len(prop.Rules), len(ctlResults), time.Since(t0).Seconds())
+	if nViol > 0 {
+		return 1
+	}
+	return 0
+}
+
+func firstLine(s string) string {
+	if i := strings.IndexByte(s, '\n'); i >= 0 {
+		return s[:i]
+	}
+	return s
+}
+
+func distinctConstructs(obs []Obligation) int {
+	m := map[string]bool{}
+	for _, o := range obs {
+		if o.Status != stInfo {
+			m[o.Rule+"\x00"+o.Construct] = true
+		}
+	}
+	return len(m)
+}
+
+// sampleObs picks up to n obligations: every non-discharged one first, then a
+// spread over the rules.
+func sampleObs(obs []Obligation, n int) []Obligation {
+	var out []Obligation
+	seen := map[string]int{}
+	for _, o := range obs {
+		if o.Status == stViolated || o.Status == stUndecided {
+			out = append(out, o)
+		}
+	}
+	for _, o := range obs {
+		if len(out) >= n+len(seen) && len(out) >= n {
+			break
+		}
+		if o.Status == stOK && seen[o.Rule] < 2 {
+			seen[o.Rule]++
+			out = append(out, o)
+		}
+	}
+	if len(out) > 40 {
+		out = out[:40]
+	}
+	return out
+}
+
+func runReplay(path string) int {
+	var rp struct {
+		Property, Rule, Construct string
+	}
+	b, err := os.ReadFile(path)
+	if err != nil {
+		fmt.Println("ERROR", err)
+		return 2
+	}
+	if err := jsonUnmarshal(b, &rp); err != nil {
+		fmt.Println("ERROR", err)
+		return 2
+	}
+	prog, err := Load(*flagRepo, defaultConfig, nil)
+	if err != nil {
+		fmt.Printf("ERROR load: %v\nVIOLATION property=%s replay=%s\n", err, rp.Property, path)
+		return 1
+	}
+	if ruleTable[rp.Rule] == nil {
+		fmt.Printf("replay: rule %s unknown\n", rp.Rule)
+		return 2
+	}
+	run := runRules(prog, []string{rp.Rule})
+	status := "absent"
+	for _, o := range run.Obs {
+		if o.Construct == rp.Construct {
+			status = o.Status
+			fmt.Printf("%s %s [%s] %s: %s\n", strings.ToUpper(o.Status), o.Pos, o.Rule, o.Construct, o.Detail)
+		}
+	}
+	if status == stViolated || status == stUndecided {
+		fmt.Printf("VIOLATION property=%s replay=%s\n", rp.Property, path)
+		return 1
+	}
+	fmt.Printf("replay: obligation %s/%s is now %s\n", rp.Rule, rp.Construct, status)
+	return 0
+}
+
+func listAll() {
+	var ids []string
+	for id := range propertyTable {
+		ids = append(ids, id)
+	}
+	sort.Strings(ids)
+	for _, id := range ids {
+		p := propertyTable[id]
+		fmt.Printf("%s  rules: %s\n", id, strings.Join(p.Rules, " "))
+	}
+	var rs []string
+	for n := range ruleTable {
+		rs = append(rs, n)
+	}
+	sort.Strings(rs)
+	fmt.Println()
+	for _, n := range rs {
+		fmt.Printf("%-22s floor=%d  %s\n", n, ruleTable[n].Floor, ruleTable[n].Doc)
+	}
+	fmt.Println()
+	for _, c := range controlTable {
+		fmt.Printf("control %-28s rule=%-20s %s\n", c.ID, c.Rule, c.Why)
+	}
+}
